@@ -63,13 +63,16 @@ ApplyV(f, x, empty, H, log, fuel) ==
      (IF fuel = 0 THEN R(SKIP, log)
       ELSE LET r == Eval(f.body, x, H, log, fuel - 1) IN
            IF r.re THEN ApplyV(f, r.v, empty, H, r.log, fuel - 1) ELSE R(r.v, r.log))
+  ELSE IF f.t = "partial" THEN      \* a partial application keeps an expression and the first part of its input; applying it appends the rest
+     (IF f.l.t # "expr" THEN R(U, log)
+      ELSE ApplyV(f.l, IF empty THEN f.r ELSE [t |-> "concat", l |-> f.r, r |-> x], FALSE, H, log, fuel))
   ELSE IF f.t = "ext" THEN
      LET h == HostApply(H, f.v) IN
      R(IF h = None THEN U ELSE IF h[1] = [t |-> "ARG"] THEN x ELSE h[1],
        Append(log, [cb |-> "apply", ext |-> f.v, arg |-> x, answered |-> h # None]))
   ELSE IF f.t \in {"list", "pair"} /\ x.t \in {"int", "sym"} THEN R(AccessV(f, x), log)
   ELSE IF f.t \in {"list", "pair", "str", "bytes"} /\ x.t = "float" THEN R(SKIP, log)      \* fractional index: not specified
-  ELSE IF f.t \in {"partial", "range", "slice", "sym", "symlist", "concat", "str", "bytes"} THEN R(SKIP, log)
+  ELSE IF f.t \in {"range", "slice", "sym", "symlist", "concat", "str", "bytes"} THEN R(SKIP, log)
   ELSE IF f.t = "list" /\ x.t = "range" THEN R(IF IntRange(x) THEN [t |-> "slice", l |-> f, r |-> x] ELSE SKIP, log)     \* a list applied to a range is the slice
   ELSE IF f.t = "list" /\ x.t = "symlist" THEN R(SKIP, log)
   ELSE R(U, log)
@@ -143,6 +146,7 @@ Eval(t, cur, H, log, fuel) ==
                   [] l = "xor" -> B(Truthy(x) # Truthy(y))
                   [] l = "acc" -> AccessV(x, y)
                   [] l = "cat" -> [t |-> "concat", l |-> x, r |-> y]
+                  [] l = "part" -> [t |-> "partial", l |-> x, r |-> y]
                   [] l = "tyeq" -> (IF x.t = "type" \/ y.t = "type" THEN SKIP ELSE B(TypeName(x) = TypeName(y)))
                   [] l \in {"rng", "rngs", "rnge", "rngx"} ->
                        (IF ~(IsNum(x) /\ IsNum(y)) THEN U
